@@ -30,6 +30,10 @@ CLAIMS = {
             "Decides the structural clauses of the unknown-operator rule: rejection order (reserved first), 4-byte multiplier cap, selector bits, base compared with the budget before multiplying, overflow-checked multiplication in BOTH cost models, 32-bit cap dominating the only Ok(nil), sibling cost constants, and that op_unknown is reachable only through the lenient unknown-operator paths with unchanged arguments. Known finding: classic model uses wrapping_mul.",
             "Trusts rustc's MIR; the numeric value of the add/mul/concat-like formulas is not decided (only which constants they read).",
             "DESIGN.md 4/C09"),
+    "C10": ("table extraction: per-operator sets of named cost constants resolved through the dispatch switch vs. a transcription of the published classic table; constant relations; flag-region placement of NEW_* vs classic constants; formula evaluation against the figures printed in the docs; structural no-shortcut rule for the tree-hash walk",
+            "Decides: all 27 classic rows + 6 interpreter constants equal the published values; documented relations (coinid, BLS siblings, sha256tree per-byte) hold in both models; every NEW_* constant is read only under NEW_COST_MODEL and its counterpart only without it (incl. helper functions and bool-parameter helpers); new-model per-argument terms use max(., limbs); the sha256tree formula reproduces the 4 documented figures and the walk pushes both children of every pair unconditionally with every update checked. Not the new-model constant values (documented only in code) nor that each formula is evaluated correctly on all arguments.",
+            "Trusts the transcription in oracle/classic_costs.json (values of the historical clvm cost table) and rustc's constant evaluation.",
+            "DESIGN.md 4/C10"),
     "C11": ("effect confinement of NEW_COST_MODEL-controlled regions (T6) + forward taint of the values they define to cost sinks; audited split-accumulator regions frozen by their set of value operations",
             "Decides for EVERY test of NEW_COST_MODEL (73 today, incl. tests of the captured flag inside closures) that code run under only one model calls only cost helpers and defines only values that reach the cost (accumulator, check_cost, CostExceeded comparisons, cost slot), never the result node, the allocator or bignum values. Seven audited regions (split accumulators of add/sub/logops) are pinned by the exact set of value operations each arm performs.",
             "Trusts rustc's MIR, the cost-helper whitelist and the value-type blacklist; equality of acc0+acc1+small and the single accumulator is arithmetic and not decided; control dependence on a cost-derived comparison is not tracked.",
